@@ -251,7 +251,9 @@ def _defer_method(
     else:
         if is_nary:
 
-            def nary(A, *B, **C):
+            # (A is positional-only: a keyword call like chooses(A=1, AAAA=28)
+            # must be free to use any name)
+            def nary(A, /, *B, **C):
                 assert B or C
                 assert not (B and C)
 
